@@ -50,8 +50,9 @@ let parse_op (tok : string) : op * int =
     | s -> failwith ("unknown-op-" ^ s) in
   (o, tgt)
 
+let sb_string_of_z = function Z0 -> "0" | Zpos p -> string_of_pos p | Zneg p -> "-" ^ string_of_pos p
 let show_out = function
-  | RVoid -> "-" | RNum k -> string_of_n k | RInt z -> string_of_z z
+  | RVoid -> "-" | RNum k -> string_of_n k | RInt z -> sb_string_of_z z
   | RBytes l -> "x" ^ hex_of_bytes l | RThrow -> "T" | RShort -> "SHORT" | RSkip -> "SKIP" | RUndef -> "UNDEF"
 
 let () =
